@@ -65,10 +65,11 @@ Proof.
   generalize (compute_Lb c). intros c' H1. crush.
 Qed.
 
-(* L0a is only fresh when `_a` is valid at that moment *)
-Lemma fresh_compute_L0a : forall k c, fresh k c -> a_set c = true -> fresh k (compute_L0a c).
+Lemma fresh_compute_L0a : forall k c, fresh k c -> fresh k (compute_L0a c).
 Proof.
-  intros k c H Ha. unfold compute_L0a. destruct (L0a_set c) eqn:E; [exact H|]. crush.
+  intros k c H. unfold compute_L0a. destruct (L0a_set c) eqn:E; [exact H|].
+  destruct (fresh_compute_a k c H) as [H1 H2]. revert H1 H2.
+  generalize (compute_a c). intros c' H1 H2. crush.
 Qed.
 
 (* which accessors leave `_a` valid once it is *)
@@ -84,7 +85,8 @@ Proof.
     unfold compute_a. destruct (a_set (compute_Lb c)) eqn:E2; cbv iota; [exact E2|reflexivity].
   - unfold compute_LLb. destruct (LLb_set c); [exact Ha|]. simpl.
     now rewrite (proj1 (compute_Lb_keeps_a c)).
-  - unfold compute_L0a. destruct (L0a_set c); exact Ha.
+  - unfold compute_L0a. destruct (L0a_set c); [exact Ha|]. simpl.
+    unfold compute_a. now rewrite Ha.
   - now rewrite (proj1 (compute_b_keeps_a c)).
 Qed.
 
@@ -117,7 +119,7 @@ Proof.
   - pose proof (fresh_compute_LLb k c H) as H1. split; [exact H1|].
     assert (E : LLb_set (compute_LLb c) = true) by (unfold compute_LLb; destruct (LLb_set c) eqn:E; [exact E|reflexivity]).
     destruct H1 as (_ & _ & _ & _ & _ & _ & HL & _). now rewrite (HL E).
-  - pose proof (fresh_compute_L0a k c H (Hl eq_refl)) as H1. split; [exact H1|].
+  - pose proof (fresh_compute_L0a k c H) as H1. split; [exact H1|].
     assert (E : L0a_set (compute_L0a c) = true) by (unfold compute_L0a; destruct (L0a_set c) eqn:E; [exact E|reflexivity]).
     destruct H1 as (_ & _ & _ & _ & _ & _ & _ & HL). destruct (HL E) as [A B]. now rewrite A, B.
   - destruct (fresh_compute_b k c H) as [H1 H2]. split; [exact H1|].
@@ -161,8 +163,26 @@ Proof.
   destruct (c_run (c_set_state c k) (map Get tms)) as [c2 out]. cbn [snd] in *. now rewrite H.
 Qed.
 
-(* without the a() call the `_a` that goes into L0a is the previous state's *)
-Lemma L0a_without_a_is_stale :
-  snd (c_run cache0 [SetState 1; Get Ta; SetState 2; Get TL0a])
-  = [None; Some (1, 1); None; Some (2, 1)].
-Proof. reflexivity. Qed.
+(* any accessor order *)
+Lemma run_gets_fresh_any : forall k tms c,
+  fresh k c -> snd (c_run c (map Get tms)) = map (fun _ => Some (k, k)) tms.
+Proof.
+  intros k tms. induction tms as [|tm r IH]; intros c H; [reflexivity|].
+  cbn [map c_run].
+  assert (G : fresh k (fst (c_get c tm)) /\ snd (c_get c tm) = (k, k)).
+  { destruct tm; try (apply get_fresh; [exact H|discriminate]).
+    simpl. pose proof (fresh_compute_L0a k c H) as H1. split; [exact H1|].
+    assert (E : L0a_set (compute_L0a c) = true)
+      by (unfold compute_L0a; destruct (L0a_set c) eqn:E; [exact E|reflexivity]).
+    destruct H1 as (_ & _ & _ & _ & _ & _ & _ & HL). destruct (HL E) as [A B]. now rewrite A, B. }
+  destruct G as [H1 H2]. destruct (c_get c tm) as [c1 v]. cbn [fst snd] in H1, H2. subst v.
+  specialize (IH c1 H1). destruct (c_run c1 (map Get r)) as [c2 out]. cbn [snd] in *. now rewrite IH.
+Qed.
+
+Lemma any_step_reads_current_state : forall (c : cache) k tms,
+  snd (c_run c (SetState k :: map Get tms)) = None :: map (fun _ => Some (k, k)) tms.
+Proof.
+  intros c k tms. cbn [c_run].
+  pose proof (run_gets_fresh_any k tms (c_set_state c k) (fresh_set_state c k)) as H.
+  destruct (c_run (c_set_state c k) (map Get tms)) as [c2 out]. cbn [snd] in *. now rewrite H.
+Qed.
